@@ -29,7 +29,7 @@ type Mut struct {
 	Repl string `json:"repl,omitempty"` // replacement shape for tree mutations
 }
 
-var replShapes = []string{"null", "num", "negnum", "float", "bignum", "str", "emptystr", "arr", "obj", "true", "delete", "tuple0", "tuple1", "tuple3", "strid", "nested", "dup"}
+var replShapes = []string{"cast-int64", "cast-uint64", "cast-float64", "cast-string", "null", "num", "negnum", "float", "bignum", "str", "emptystr", "arr", "obj", "true", "delete", "tuple0", "tuple1", "tuple3", "strid", "nested", "dup"}
 
 type treePath struct {
 	parent interface{} // map[string]interface{} or []interface{}
@@ -88,6 +88,9 @@ func replacement(shape string) (interface{}, bool) {
 		return []interface{}{[]interface{}{json.Number("1"), json.Number("2"), json.Number("3")}}, true
 	case "strid":
 		return []interface{}{[]interface{}{json.Number("1"), "notanumber"}}, true
+	case "cast-int64", "cast-uint64", "cast-float64", "cast-string":
+		// a string that is a perfectly valid cast / type name, just possibly the wrong one
+		return strings.TrimPrefix(shape, "cast-"), true
 	case "nested":
 		return map[string]interface{}{"index": []interface{}{map[string]interface{}{"a": nil}}, "cast": "complex128", "name": "S..X"}, true
 	}
@@ -262,11 +265,27 @@ func caseC19(t TB, prog *Program) {
 			}
 			// the same triple as a refinement of a valid search; And with something that
 			// cannot be evaluated must not return objects either
-			for _, conn := range []string{"and", "or"} {
+			lefts := []Query{{Leaves: []Leaf{{Path: "I64", Op: "!=", V: Val{K: "i", I: -987654321}}}}}
+			// a left-hand side that matches exactly one object, if there is one
+			for _, id := range e.m.live {
+				cand := Query{Leaves: []Leaf{{Path: "I64", Op: "=", V: Val{K: "i", I: e.m.objs[id].I64}}}}
+				if set, c := e.m.Eval(cand); c == OK && len(set) == 1 {
+					lefts = append(lefts, cand)
+					break
+				}
+			}
+			for ci, conn := range []string{"and", "or", "and", "or"} {
 				conn := conn
+				left := lefts[0]
+				if ci >= 2 {
+					if len(lefts) < 2 {
+						break
+					}
+					left = lefts[1]
+				}
 				var nn int
 				p, stk, hung := protect("chain", func() {
-					s := e.db.Search(&Doc{}, "I64", "!=", int64(-987654321))
+					s := e.runQuery(e.db, left)
 					if conn == "and" {
 						s = s.And(l.Path, l.Op, l.V.Iface(docPathIndex[l.Path]))
 					} else {
@@ -424,6 +443,20 @@ func caseC19(t TB, prog *Program) {
 		}
 	}
 	call("InsertOrUpdate", func() error { d := &Doc{S: "fresh", I64: 424242}; return db.InsertOrUpdate(d) })
+	// probes of every class on every searched path, also after the insert above (a forged cast
+	// in an empty index only matters once the index holds a value)
+	for _, sp := range searchPaths {
+		for _, pv := range []interface{}{"five", int64(5), uint64(5), 5.5, baseTime, nil} {
+			sp, pv := sp, pv
+			call("Search mistyped "+sp, func() error {
+				s := db.Search(&Doc{}, sp, "<=", pv)
+				s.Len()
+				_, err := s.Collect()
+				s.And(sp, ">", pv).Collect()
+				return err
+			})
+		}
+	}
 	call("InsertOrUpdateMany", func() error {
 		_, err := db.InsertOrUpdateMany(&Doc{S: "m1", I64: 424243}, &Doc{S: "m2", I64: 424244})
 		return err
